@@ -123,7 +123,32 @@ func litStr(t *wty, bits uint32) string {
 	return "?"
 }
 
+// renderOpts: meaning-neutral rendering variations (C19).
+type renderOpts struct {
+	rng           interface{ Float64() float64 }
+	parenProb     float64
+	trailingComma bool
+}
+
+var wrender *renderOpts
+
+func joinArgs(as []string) string {
+	s := strings.Join(as, ", ")
+	if wrender != nil && wrender.trailingComma && len(as) > 0 && wrender.rng.Float64() < 0.5 {
+		s += ","
+	}
+	return s
+}
+
 func (e *wexpr) wgsl() string {
+	s := e.wgsl0()
+	if wrender != nil && e.k != "addr" && wrender.rng.Float64() < wrender.parenProb {
+		return "(" + s + ")"
+	}
+	return s
+}
+
+func (e *wexpr) wgsl0() string {
 	switch e.k {
 	case "lit":
 		return litStr(e.ty, e.bits)
@@ -138,7 +163,7 @@ func (e *wexpr) wgsl() string {
 		for i, a := range e.args {
 			as[i] = a.wgsl()
 		}
-		return e.name + "(" + strings.Join(as, ", ") + ")"
+		return e.name + "(" + joinArgs(as) + ")"
 	case "cast":
 		return e.ty.String() + "(" + e.args[0].wgsl() + ")"
 	case "bitcast":
@@ -148,7 +173,7 @@ func (e *wexpr) wgsl() string {
 		for i, a := range e.args {
 			as[i] = a.wgsl()
 		}
-		return e.ty.String() + "(" + strings.Join(as, ", ") + ")"
+		return e.ty.String() + "(" + joinArgs(as) + ")"
 	case "swz":
 		return e.args[0].wgsl() + "." + e.name
 	case "idx":
@@ -1183,7 +1208,7 @@ func (g *wgen) stmt(depth int) *wstmt {
 		return g.storeOut(3)
 	case r < 30:
 		t := g.localTy()
-		name := g.fresh("v")
+		name := g.fresh("vv")
 		var init *wexpr
 		if g.c.chance(0.8) {
 			init = g.expr(t, 3)
@@ -1193,7 +1218,7 @@ func (g *wgen) stmt(depth int) *wstmt {
 		return &wstmt{k: "var", name: name, ty: t, e: init}
 	case r < 38:
 		t := g.valueTy()
-		name := g.fresh("l")
+		name := g.fresh("ll")
 		e := g.expr(t, 3)
 		g.declare(wscopeVar{name: name, ty: t})
 		g.f("let")
@@ -1203,7 +1228,7 @@ func (g *wgen) stmt(depth int) *wstmt {
 		if t.k == "f32" {
 			t = tI32
 		}
-		name := g.fresh("k")
+		name := g.fresh("kk")
 		e := g.lit(t, true)
 		g.declare(wscopeVar{name: name, ty: t, konst: true, small: true})
 		g.f("const-local")
@@ -1384,7 +1409,7 @@ func isJump(s *wstmt) bool { return s.k == "break" || s.k == "continue" || s.k =
 
 func (g *wgen) loopStmt(depth int) *wstmt {
 	bound := uint32(1 + g.c.rng.Intn(4))
-	ctr := g.fresh("i")
+	ctr := g.fresh("ii")
 	kind := g.c.rng.Intn(3)
 	if g.inCont {
 		kind = 0
@@ -1480,7 +1505,7 @@ func (g *wgen) helper(i int) *wfunc {
 	g.push()
 	for j := 0; j < np; j++ {
 		t := g.valueTy()
-		name := fmt.Sprintf("p%d_%d", i, j)
+		name := fmt.Sprintf("pp%d_%d", i, j)
 		ptr := g.c.chance(0.25)
 		f.params = append(f.params, wfield{name: name, ty: t})
 		f.ptrs = append(f.ptrs, ptr)
@@ -1523,7 +1548,7 @@ func genModule(c *ctx, o wgenOpts) (*wmodule, map[string]int) {
 				if ft.scalarOf().k == "bool" || (ft.k == "arr" && ft.elem.k == "bool") {
 					ft = tU32 // keep structs host-shareable so they can also live in buffers
 				}
-				s.flds = append(s.flds, wfield{name: fmt.Sprintf("f%d", j), ty: ft})
+				s.flds = append(s.flds, wfield{name: fmt.Sprintf("fld%d", j), ty: ft})
 			}
 			g.m.structs = append(g.m.structs, s)
 			g.f("struct-decl")
@@ -1539,7 +1564,7 @@ func genModule(c *ctx, o wgenOpts) (*wmodule, map[string]int) {
 	var globalsScope []wscopeVar
 	for i := 0; i < nk; i++ {
 		t := []*wty{tI32, tU32}[c.rng.Intn(2)]
-		name := fmt.Sprintf("K%d", i)
+		name := fmt.Sprintf("KK%d", i)
 		g.m.consts = append(g.m.consts, &wstmt{k: "const", name: name, ty: t, e: g.lit(t, true)})
 		globalsScope = append(globalsScope, wscopeVar{name: name, ty: t, konst: true, small: true})
 		g.f("const-module")
